@@ -1,6 +1,7 @@
 //go:build verif
 
 //verif:dir p2p/net/swarm
+//verif:also C06 VerifC12aBestConn
 //verif:hook p2p/net/swarm Swarm.dialPeer
 //verif:hook p2p/net/swarm Conn.openAndAddStream
 //verif:hook p2p/net/swarm Conn.start
@@ -292,4 +293,65 @@ func VerifC12cDirectArrivesWhileRegistering() {
 	vAssert(added && direct != nil, "the direct connection is admitted")
 	vAssert(gerr == nil && got == direct, "a direct connection admitted while the caller is entering the wait is not missed")
 	vAssert(len(s.directConnNotifs.m[vC12peer]) == 0, "no waiter registration is left behind")
+}
+
+// Several callers wait for a direct connection to the same peer; some give up, in any order, before it arrives.
+func VerifC12cSeveralWaiters() {
+	vDeadlockIsViolation()
+	s := vC12swarm()
+	VerifHook_Conn_start = func(c *Conn) {}
+	VerifHook_connectionEventsEmitter_AddConn = func(e *connectionEventsEmitter, c *Conn) {}
+	defer func() { VerifHook_Conn_start, VerifHook_connectionEventsEmitter_AddConn = nil, nil }()
+	lim := vC12conn(s, false, true, true, 0)
+	s.conns.m[vC12peer] = []*Conn{lim}
+	settle := func() {
+		for i := 0; i < 25; i++ {
+			vYield()
+		}
+	}
+	var got [3]*Conn
+	var gerr [3]error
+	var done [3]bool
+	var cancel [3]context.CancelFunc
+	for i := 0; i < 3; i++ {
+		i := i
+		ctx, c := context.WithCancel(network.WithDialPeerTimeout(context.Background(), time.Hour))
+		cancel[i] = c
+		go func() {
+			got[i], gerr[i] = s.waitForDirectConn(ctx, vC12peer)
+			done[i] = true
+		}()
+		settle() // registered in the order 0, 1, 2
+	}
+	vAssert(len(s.directConnNotifs.m[vC12peer]) == 3, "three waiters are parked")
+	// up to two of them give up, in any order
+	var cancelled [3]bool
+	orders := [][]int{{}, {0}, {1}, {2}, {0, 1}, {1, 0}, {0, 2}, {2, 0}, {1, 2}, {2, 1}}
+	for _, w := range orders[vCase(len(orders))] {
+		cancel[w]()
+		cancelled[w] = true
+		settle()
+		vAssert(done[w] && got[w] == nil && gerr[w] != nil, "a waiter that gives up returns with an error")
+	}
+	left := 0
+	for i := 0; i < 3; i++ {
+		if !cancelled[i] {
+			left++
+			vAssert(!done[i], "a waiter still inside its deadline keeps waiting when another one gives up")
+		}
+	}
+	vAssert(len(s.directConnNotifs.m[vC12peer]) == left, "exactly the waiters that gave up are removed from the list")
+	direct, err := s.addConn(&vC12tc{tpt: &vC12tpt{}, p: vC12peer}, network.DirInbound)
+	vAssert(err == nil, "direct connection admitted")
+	settle()
+	for i := 0; i < 3; i++ {
+		if !cancelled[i] {
+			vCover("woken")
+			vAssert(done[i] && gerr[i] == nil && got[i] == direct, "every remaining waiter is woken by the direct connection and gets it")
+		}
+	}
+	vAssert(len(s.directConnNotifs.m[vC12peer]) == 0, "no registration is left behind")
+	for i := 0; i < 3; i++ {
+		cancel[i]()
+	}
 }
